@@ -3,7 +3,7 @@
 # its property exit 1 with a VIOLATION line.  usage: tools/selftest.sh [reverts|seeded|all]
 cd /verif
 what=${1:-all}
-declare -A PROP=( [3ea185a]="C01 C10" [d7a52c5]="C01" [117ffb3]="C02" [e89feec]="C02" [84c4d84]="C08" [5da2e3b]="C05" [0342dc3]="C05" [785dfe0]="C04" [c7852e6]="C04" [82a19b4]="C04" [2c253dd]="C04" [7be7c8d]="C14 C15" [1bf11b0]="C17 C03" [e92f234]="C18" [91eb8f7]="C12" [ae9e816]="C12" [0ed175a]="C09" [05d2b72]="C09 C04" [5101689]="C12" [0a8e760]="C01" )
+declare -A PROP=( [3ea185a]="C01 C10" [d7a52c5]="C01" [117ffb3]="C02" [e89feec]="C02" [84c4d84]="C08" [5da2e3b]="C05" [0342dc3]="C05" [785dfe0]="C04" [c7852e6]="C04" [82a19b4]="C04" [2c253dd]="C04" [7be7c8d]="C14 C15" [1bf11b0]="C17 C03" [e92f234]="C18" [91eb8f7]="C12" [ae9e816]="C12" [0ed175a]="C09" [05d2b72]="C09 C04" [5101689]="C12" [0a8e760]="C01" [aa6bae1]="C12 C07" )
 fail=0
 if [ "$what" != seeded ]; then
   for f in mutants/revert-*.diff; do
